@@ -1,7 +1,7 @@
 """C02 — a forwarding node never loses money: the admission arithmetic of a forward."""
 import z3
 from engine_m import exec as X
-from engine_m.session import Binding
+from engine_m.session import Binding, Inconclusive
 from .common import *
 
 EVIDENCE = dict(assumptions=[
@@ -15,6 +15,7 @@ def run(S):
     from .C01 import dust_exposure_limit, check_truth_table
     check_truth_table(S)
     dust_exposure_limit(S, D, 1 if S.tier == 'quick' else 2, 'C02.d')
+    forward_admission_manager(S, D, 'C02.e')
     E = S.engine()
     f = S.fn('internal_htlc_satisfies_config')
     mem = {}
@@ -63,3 +64,103 @@ def run(S):
                     parse=reason_parser(D), panic=panic2, domain=[(0, U32), (0, U32), (0, U32), (0, U16)])
     S.prove('C02.c.min_delta', E2, [h.t < (1 << 31)], z3.Implies(is_ok(rv2), out2.t + d2.t <= cltv2.t),
             'onion admission: outgoing_cltv + min_cltv_expiry_delta <= incoming cltv_expiry', [bind2])
+
+
+def forward_admission_manager(S, D, prefix='C02.e'):
+    """the whole forward-admission path of the ChannelManager (can_forward_htlc_should_intercept ->
+    can_forward_htlc_to_outgoing_channel -> FundedChannel::htlc_satisfies_config ->
+    internal_htlc_satisfies_config, and onion_payment::check_incoming_htlc_cltv), executed from MIR with
+    the environment stubbed: channel lookup = arbitrary found/not-found, channel liveness/announcement
+    predicates = arbitrary booleans, current and previous ChannelConfig = arbitrary values."""
+    import re
+    E = S.engine()
+    mem = {}
+    f = S.fn('can_forward_htlc_should_intercept')
+    found = z3.Bool('chan_found')
+
+    def h_cb(E_, m, func, argv, guard, mem_, dty, caller):
+        chan = E_.sym('chan', '&mut FundedChannel<SP>', mem_)
+        res = E_.cond_call_closure(argv[2], [chan], guard, found, mem_)
+        if res is X.DIVERGE:
+            return X.En('Option', 0, {})
+        return X.En('Option', z3.If(found, 1, 0), {1: [res[0]]})
+    E.models.insert(0, (re.compile(r'do_funded_channel_callback'), h_cb))
+    for nm in ['is_valid_phantom', 'forward_needs_intercept_to_unknown_chan', 'forward_needs_intercept_to_known_chan',
+               'should_announce', 'is_live', 'is_enabled', 'is_connected']:
+        E.models.insert(0, (re.compile(r'(?:^|::)%s$' % nm), (lambda n_: (lambda *a: X.B(z3.Bool('env.' + n_))))(nm)))
+    E.models.insert(0, (re.compile(r'supports_scid_privacy$'), lambda *a: X.B(z3.Bool('env.scid_privacy'))))
+    E.models.insert(0, (re.compile(r'outbound_scid_alias$'), lambda *a: X.I(z3.Int('env.scid_alias'), 'u64')))
+    E.assume(z3.And(z3.Int('env.scid_alias') >= 0, z3.Int('env.scid_alias') <= U64))
+    cmin = E.sym('env.cp_htlc_min', 'u64')
+    E.models.insert(0, (re.compile(r'get_counterparty_htlc_minimum_msat$'), lambda *a: cmin))
+    cfg = X.Adt('ChannelConfig', {}, base='cfg')
+    pcfg = X.Adt('ChannelConfig', {}, base='pcfg')
+    p_some = z3.Bool('prev_cfg_some')
+    E.models.insert(0, (re.compile(r'ChannelContext::<.*>::config$'), lambda *a: cfg))
+    E.models.insert(0, (re.compile(r'ChannelContext::<.*>::prev_config$'), lambda *a: X.En('Option', z3.If(p_some, 1, 0), {1: [pcfg]})))
+    args = [E.sym('a%d' % n, t, mem) for n, t in f.params]
+    rv = S.call(E, f, args, mem)
+    returns = S.ret_guard
+    ok = z3.And(returns, X.zint(rv.d) == 0)
+    cm = mem[args[0].cell]
+    msg = mem[args[1].cell]
+    nh = mem[args[3].cell]
+    amt_in = field(E, D, 'UpdateAddHTLC', 'amount_msat', msg, 'u64').t
+    cltv_in = field(E, D, 'UpdateAddHTLC', 'cltv_expiry', msg, 'u32').t
+    out_amt = field(E, D, 'NextPacketDetails', 'outgoing_amt_msat', nh, 'u64').t
+    out_cltv = field(E, D, 'NextPacketDetails', 'outgoing_cltv_value', nh, 'u32').t
+    conn = field(E, D, 'NextPacketDetails', 'outgoing_connector', nh, 'onion_payment::HopConnector')
+    is_scid = X.zint(conn.d) == D.variant_index('HopConnector', 'ShortChannelId')
+    # best block height as read through the lock
+    bb_cell = None
+    for k, c in E.lock_cells.items():
+        if 'BlockLocator' in str(type(mem.get(c))) or True:
+            v = mem.get(c)
+            if isinstance(v, X.Adt) and 'BlockLocator' in v.name:
+                bb_cell = c
+    if bb_cell is None:
+        raise Inconclusive('best_block lock was not read by can_forward_htlc_should_intercept')
+    H = field(E, D, 'BlockLocator', 'height', mem[bb_cell], 'u32').t
+
+    def cfgf(c, nm, ty):
+        return field(E, D, 'ChannelConfig', nm, c, ty).t
+    def fee_ok(c):
+        fee = cfgf(c, 'forwarding_fee_base_msat', 'u32') + (out_amt * cfgf(c, 'forwarding_fee_proportional_millionths', 'u32')) / 1000000
+        return z3.And(out_amt + fee <= amt_in, out_cltv + cfgf(c, 'cltv_expiry_delta', 'u16') <= cltv_in)
+    def parse(t):
+        if t[0] == 'Ok':
+            return [0, None]
+        return [1, D.variant_index('LocalHTLCFailureReason', t[1])]
+    reason = rv.vs[1][0]
+    oa = [z3.Int('o.%s' % k) for k in ('cltv_off', 'known', 'out_off', 'use_prev')]
+    E.assume(oa[0] == cltv_in - H); E.assume(oa[1] == z3.If(found, 1, 0)); E.assume(oa[2] == out_cltv - H); E.assume(oa[3] == z3.If(p_some, 1, 0))
+    b = Binding('forward_probe', [amt_in, oa[0], oa[1], out_amt, oa[2], cfgf(cfg, 'forwarding_fee_base_msat', 'u32'), cfgf(cfg, 'forwarding_fee_proportional_millionths', 'u32'),
+                                  cfgf(cfg, 'cltv_expiry_delta', 'u16'), oa[3], cfgf(pcfg, 'forwarding_fee_base_msat', 'u32'), cfgf(pcfg, 'forwarding_fee_proportional_millionths', 'u32'),
+                                  cfgf(pcfg, 'cltv_expiry_delta', 'u16')], [z3.If(ok, 0, 1), X.zint(reason.d)], parse=parse, which='oracle_tu')
+    # the native probe drives two real nodes: a live, announced, connected channel whose policies are set
+    # through the public API (which enforces cltv_expiry_delta >= MIN_CLTV_EXPIRY_DELTA); unknown SCIDs are
+    # neither phantom nor intercepted; counterparty htlc_minimum is the test default (1000 msat)
+    E_true = [z3.Bool('env.' + k) for k in ('should_announce', 'is_live', 'is_enabled', 'is_connected')]
+    probe_env = E_true + [z3.Not(z3.Bool('env.is_valid_phantom')), z3.Not(z3.Bool('env.forward_needs_intercept_to_unknown_chan')),
+                          z3.Not(z3.Bool('env.forward_needs_intercept_to_known_chan')), z3.Not(z3.Bool('env.scid_privacy')), cmin.t == 1000,
+                          cfgf(cfg, 'cltv_expiry_delta', 'u16') >= 48, cfgf(pcfg, 'cltv_expiry_delta', 'u16') >= 48, is_scid,
+                          cltv_in - H <= 100000, out_cltv - H <= 100000, H >= 1000]
+    pre = [H < (1 << 31)]
+    MIN_DELTA = 48
+    nxt = H + 1          # HTLCs are checked against the height of the next block
+    cltv_rules = z3.And(cltv_in >= out_cltv + MIN_DELTA, cltv_in > nxt + 39, cltv_in <= nxt + 2016, out_cltv > nxt + 3)
+    S.witness(prefix + '.witness', E, pre + [found], ok)
+    S.prove(prefix + '.cltv_next_block', E, pre + [is_scid], z3.Implies(ok, cltv_rules),
+            'a forward admitted by the ChannelManager satisfies every CLTV rule relative to the NEXT block height (best height + 1): upstream expiry more than HTLC_FAIL_BACK_BUFFER away and at most CLTV_FAR_FAR_AWAY, downstream expiry beyond the latency grace period, and at least MIN_CLTV_EXPIRY_DELTA between them',
+            bounds='all amounts/expiries, heights < 2^31, arbitrary channel state predicates and configs')
+    S.prove(prefix + '.known_channel_policy', E, pre + [is_scid, found], z3.Implies(ok, z3.And(z3.Or(fee_ok(cfg), z3.And(p_some, fee_ok(pcfg))), out_amt >= cmin.t)),
+            'a forward to a known channel is admitted only if it pays the fee and CLTV delta of the channel\'s current config or of its previous config, and meets the counterparty htlc_minimum')
+    S.prove(prefix + '.unknown_channel_sanity', E, pre + [is_scid, z3.Not(found)], z3.Implies(ok, z3.And(out_amt <= amt_in, cltv_in - out_cltv >= MIN_DELTA)),
+            'a forward to an unknown (intercepted / phantom) channel never offers more than it received and keeps MIN_CLTV_EXPIRY_DELTA')
+    S.no_panic(prefix + '.nopanic', E, pre + [is_scid], 'no overflow / unwrap panic on the admission path for heights < 2^31')
+    # the same claims restricted to the environment the native two-node probe realises, so that a
+    # counterexample can be replayed against a real ChannelManager
+    S.prove(prefix + '.native_admission', E, pre + probe_env, z3.Implies(ok, z3.And(cltv_rules,
+            z3.If(found, z3.And(z3.Or(fee_ok(cfg), z3.And(p_some, fee_ok(pcfg))), out_amt >= cmin.t), False))),
+            'replayable form (live announced channel, policies set through update_channel_config): admitted => CLTV rules at the next block height and the current or previous policy is paid; unknown SCIDs are refused',
+            [b], bounds='as above, environment fixed to what the native two-node probe builds')
